@@ -53,6 +53,8 @@ def enc_int(v, width):
 def enc_event(e):
     """abstract event {m, a, j, clk, sz, fmt} -> bytes"""
     a = e["a"]
+    if e.get("jsz") is not None:
+        return obs.ev(e["m"], e["clk"], jumbo=b"\x01\x02\x03"[:e["jsz"]])
     if e["m"][1:] == "Yc" and len(a) >= 2:
         data = enc_int(a[0], 4) + ("T%d" % a[1]).encode() + b"\0"
         if e["j"]:
@@ -165,6 +167,11 @@ def corrupt(seed, c):
                 e = dict(st["evs"][p - 1])
                 e["sz"] = q
                 evs[p - 1] = enc_event(e)
+            elif kind == "jsz":
+                e = dict(st["evs"][p - 1])
+                e["a"] = []
+                e["jsz"] = q
+                evs[p - 1] = enc_event(e)
             elif kind == "nojumbo":
                 e = dict(st["evs"][p - 1])
                 e["j"] = False
@@ -268,6 +275,8 @@ def describe(c):
         return "stream %d event %d MCV replaced by %s" % (c["stream"], c["p"], c["q"])
     if k == "pay":
         return "stream %d event %d payload size set to %d" % (c["stream"], c["p"], c["q"])
+    if k == "jsz":
+        return "stream %d event %d jumbo data cut to %d bytes" % (c["stream"], c["p"], c["q"])
     if k == "nojumbo":
         return "stream %d event %d jumbo flag removed%s" % (c["stream"], c["p"],
                                                              " (payload = size, id, label)" if c["q"] == 1 else "")
@@ -282,7 +291,7 @@ def sig_of(seed, c):
         return "c12:json:%s" % c["p"]
     if k == "mcv":
         return "c12:mcv:%s" % c["q"]
-    if k in ("pay", "nojumbo"):
+    if k in ("pay", "nojumbo", "jsz"):
         return "c12:%s:%s" % (k, seed.streams[c["stream"] - 1]["evs"][c["p"] - 1]["m"])
     if k == "hdr":
         return "c12:hdr:%d" % c["p"]
